@@ -26,8 +26,35 @@ def validateExpect (pts : List (V3 Float)) (tris : List (Nat × Nat × Nat)) : O
   | some s => some (if sides.count s == 1 then s!"open-edge-{s.1}-{s.2}" else s!"edge-with-{sides.count s}-triangles-{s.1}-{s.2}")
   | none => if (pts.length : Int) + tris.length - distinct.length != 2 then some s!"euler-V={pts.length}-F={tris.length}-E={distinct.length}" else none
 
+/-- `try_convex_hull` followed by the maintainers' validator on its result -/
+def hull3vModel (pts : List (V3 Float)) (evec : List (V3 Float)) (eval : List Float) : String :=
+  match tryConvexHull negMaxF3 pts.toArray evec eval with
+  | .ok (v, t) => if checkConvexHull v t then "ok" else "panic"
+  | .err e => s!"err {e}"
+  | .panic => "hullpanic"
+  | .hang => "hang"
+  | .lowdim => "lowdim"
+
 def handler5 (fn : String) : Option Handler :=
   match fn with
+  | "hull3v" => some {
+      -- args as for `hull3m`: the cloud, then the observed eigen-decomposition
+      model := fun a => run (do
+        let pts ← plist pv3
+        let c0 ← pv3; let c1 ← pv3; let c2 ← pv3
+        let e0 ← pf; let e1 ← pf; let e2 ← pf
+        pure (hull3vModel pts [c0, c1, c2] [e0, e1, e2])) a
+      -- the property: the hull of a non-degenerate cloud is a closed 2-manifold with Euler characteristic 2 and its vertices are
+      -- distinct input points, i.e. exactly what the maintainers' validator checks (`checkConvexHull_iff`): it must accept
+      oracle := fun a o => match run (do let pts ← plist pv3; pure pts) a with
+        | some input => (match o with
+          | "ok" :: _ => "pass"
+          | "lowdim" :: _ => "skip fewer-than-3-points"
+          | "panic" :: _ => if fullDim (input.map q3) then "fail maintainers-validator-rejects-the-hull" else "skip degenerate-cloud"
+          | "hullpanic" :: _ => "fail panic"
+          | "err" :: _ => if fullDim (input.map q3) then "fail error-for-a-full-dimensional-cloud" else "skip degenerate-input-reported-as-error"
+          | _ => "fail unparsable-output")
+        | none => "skip bad-args" }
   | "validate3" => some {
       model := fun a => run (do let pts ← plist pv3; let tris ← ptris; pure (validateModel pts tris)) a
       oracle := fun a o => match run (do let pts ← plist pv3; let tris ← ptris; pure (pts, tris)) a with
